@@ -29,8 +29,12 @@ func main() {
 	checkerDir := flag.String("checker-dir", "/verif/checker", "checker module directory (positive controls, mutants)")
 	genKnown := flag.Bool("gen-known", false, "print the function keys of the tree (reference list for the normaliser) and exit")
 	dumpNorm := flag.String("dump-norm", "", "write the normalised sources to this directory and exit")
+	survey := flag.Bool("survey-errors", false, "development aid: list nil returns under a failed error test in the anchored files and exit")
 	flag.Parse()
 	start := time.Now()
+	if *survey {
+		os.Exit(runSurvey(*repo, "/verif/properties.jsonl"))
+	}
 	if *genKnown {
 		os.Exit(runGenKnown(*repo))
 	}
@@ -126,7 +130,9 @@ func runOne(p *load.Program, id, tier string, seed int64, evdir string, kf []rep
 			code = 1
 		}
 	}()
-	pr.Run(&rules.Ctx{P: p, R: r, Tier: tier})
+	ctx := &rules.Ctx{P: p, R: r, Tier: tier}
+	pr.Run(ctx)
+	rules.ErrorDiscipline(ctx, "R"+strings.TrimLeft(id[1:], "0")+".0", rules.ErrFloor(id))
 	if tier == "thorough" && len(p.Overlay) == 0 {
 		thorough(p, r, id)
 	}
